@@ -142,7 +142,7 @@ func (u *uworld) setup(sub *usub, gen, value int) func() {
 	if sub.subRet == 0 && me == sub.task {
 		st.initial = true
 	} else {
-		st.wr = u.w.cur[me]
+		st.wr = u.w.authorOf(me, value)
 	}
 	s.Logf("setup %s %s value=%d", sub.name, cbKind(st.initial), value)
 	if sub.unsubRet != 0 {
@@ -190,7 +190,7 @@ func (u *uworld) onceCallback(sub *usub) func(old, new int) {
 		if sub.subRet == 0 && me == sub.task {
 			e.duringSub = true
 		} else {
-			e.wr = u.w.cur[me]
+			e.wr = u.w.authorOf(me, new)
 		}
 		s.Logf("once %s enter old=%d new=%d duringSubscribe=%v", sub.name, old, new, e.duringSub)
 		if len(sub.once) > 0 {
@@ -221,7 +221,7 @@ func (sub *usub) mustDeliver(c *vwrite[int]) bool {
 // started from (current at some instant of the subscribing call); the subscription then observes the transition
 // zero->state k (if state k is not the zero value) followed by the changes k, k+1, ...
 func (u *uworld) checkOnce(sub *usub) {
-	s, w := u.s, u.w
+	w := u.w
 	var starts []int
 	for k := 0; k <= len(w.changes); k++ {
 		if _, start, end := w.state(k); start <= sub.subRet && end >= sub.subInv {
@@ -256,12 +256,12 @@ func (u *uworld) checkOnce(sub *usub) {
 				return
 			}
 		}
-		s.Fail("once", "callback-never-ran-despite-qualifying-transition", "%s (%s, subscribed [%d,%d], unsubscribe invoked %d): no callback; possible start states %v; changes: %s",
+		w.attrFail("once", "callback-never-ran-despite-qualifying-transition", "%s (%s, subscribed [%d,%d], unsubscribe invoked %d): no callback; possible start states %v; changes: %s",
 			sub.name, sub.kind, sub.subInv, sub.subRet, sub.unsubInv, starts, w.fmtChanges())
 	}
 	e := sub.once[0]
 	if e.wr != nil && (e.wr.ord < 0 || e.wr.prev != e.old || e.wr.new != e.new) {
-		s.Fail("once", "callback-differs-from-change", "%s (%s): callback (%d->%d) ran under %s whose change was (%d->%d, ord %d)", sub.name, sub.kind, e.old, e.new, e.wr.desc, e.wr.prev, e.wr.new, e.wr.ord)
+		w.attrFail("once", "callback-differs-from-change", "%s (%s): callback (%d->%d) ran under %s whose change was (%d->%d, ord %d)", sub.name, sub.kind, e.old, e.new, e.wr.desc, e.wr.prev, e.wr.new, e.wr.ord)
 	}
 	happened := false
 	for _, k := range starts {
@@ -291,7 +291,7 @@ func (u *uworld) checkOnce(sub *usub) {
 	if !happened {
 		sig = "callback-reports-transition-that-did-not-happen"
 	}
-	s.Fail("once", sig, "%s (%s, subscribed [%d,%d]): callback (%d->%d) at step %d (during subscribe: %v); possible start states %v; changes: %s",
+	w.attrFail("once", sig, "%s (%s, subscribed [%d,%d]): callback (%d->%d) at step %d (during subscribe: %v); possible start states %v; changes: %s",
 		sub.name, sub.kind, sub.subInv, sub.subRet, e.old, e.new, e.enter, e.duringSub, starts, w.fmtChanges())
 }
 
@@ -306,15 +306,15 @@ func (u *uworld) checkSetups(sub *usub, final int) {
 				s.Fail("setup-teardown", "initial-setup-not-first"+m, "%s (%s): setup(%d) inside the subscribing call after a setup made by a writer", sub.name, sub.kind, st.value)
 			}
 			if !w.possiblyCurrent(st.value, sub.subInv, st.enter) {
-				s.Fail("setup-teardown", "setup-value-not-current-at-subscription"+m, "%s (%s): subscribing call [%d,%d] made setup(%d), which the variable did not hold during the call; changes: %s",
+				w.attrFail("setup-teardown", "setup-value-not-current-at-subscription"+m, "%s (%s): subscribing call [%d,%d] made setup(%d), which the variable did not hold during the call; changes: %s",
 					sub.name, sub.kind, sub.subInv, sub.subRet, st.value, w.fmtChanges())
 			}
 		} else {
 			if st.wr.ord < 0 || st.wr.new != st.value {
-				s.Fail("setup-teardown", "setup-value-differs-from-change"+m, "%s (%s): setup(%d) ran under %s whose change was (%d->%d, ord %d)", sub.name, sub.kind, st.value, st.wr.desc, st.wr.prev, st.wr.new, st.wr.ord)
+				w.attrFail("setup-teardown", "setup-value-differs-from-change"+m, "%s (%s): setup(%d) ran under %s whose change was (%d->%d, ord %d)", sub.name, sub.kind, st.value, st.wr.desc, st.wr.prev, st.wr.new, st.wr.ord)
 			}
 			if st.wr.ord < lastOrd || st.wr.ord == lastOrd && sub.mode == modeWithValue {
-				s.Fail("setup-teardown", "setups-out-of-order"+m, "%s (%s): setup(%d) for change %d after the setup for change %d", sub.name, sub.kind, st.value, st.wr.ord, lastOrd)
+				w.attrFail("setup-teardown", "setups-out-of-order"+m, "%s (%s): setup(%d) for change %d after the setup for change %d", sub.name, sub.kind, st.value, st.wr.ord, lastOrd)
 			}
 			lastOrd = st.wr.ord
 		}
@@ -323,8 +323,8 @@ func (u *uworld) checkSetups(sub *usub, final int) {
 		}
 		if st.tdWr != nil {
 			// torn down by a writer: it must be the writer of the very next change
-			if st.tdWr.ord < 0 || !st.initial && st.tdWr.ord != st.wr.ord+1 {
-				s.Fail("setup-teardown", "teardown-not-by-next-change"+m, "%s (%s): setup(%d) at step %d (initial: %v) was torn down under %s (ord %d); changes: %s", sub.name, sub.kind, st.value, st.enter, st.initial, st.tdWr.desc, st.tdWr.ord, w.fmtChanges())
+			if (st.tdWr.ord < 0 || !st.initial && st.tdWr.ord != st.wr.ord+1) && !w.crossAnnounce {
+				w.attrFail("setup-teardown", "teardown-not-by-next-change"+m, "%s (%s): setup(%d) at step %d (initial: %v) was torn down under %s (ord %d); changes: %s", sub.name, sub.kind, st.value, st.enter, st.initial, st.tdWr.desc, st.tdWr.ord, w.fmtChanges())
 			}
 			u.r.hit("setup-torn-down-by-next-change", true)
 		} else {
@@ -345,7 +345,7 @@ func (u *uworld) checkSetups(sub *usub, final int) {
 				found = found || st.wr == c
 			}
 			if !found {
-				s.Fail("setup-teardown", "setup-missed-for-qualifying-change"+m, "%s (%s, subscribed [%d,%d], returned function invoked %d): no setup for change (%d->%d) by %s [%d,%d]",
+				w.attrFail("setup-teardown", "setup-missed-for-qualifying-change"+m, "%s (%s, subscribed [%d,%d], returned function invoked %d): no setup for change (%d->%d) by %s [%d,%d]",
 					sub.name, sub.kind, sub.subInv, sub.subRet, sub.unsubInv, c.prev, c.new, c.desc, c.inv, c.ret)
 			}
 		}
@@ -386,7 +386,7 @@ func (u *uworld) checkSetups(sub *usub, final int) {
 }
 
 func (u *uworld) finalChecks(final int) {
-	s, w := u.s, u.w
+	w := u.w
 	for _, wr := range w.writes {
 		want, ok := u.wants[wr]
 		if !ok || wr.ret == 0 {
@@ -397,7 +397,7 @@ func (u *uworld) finalChecks(final int) {
 			kind = "reset-did-not-restore-the-zero-value"
 		}
 		if wr.ord >= 0 && wr.new != want || wr.ord < 0 && !w.possiblyCurrent(want, wr.inv, wr.ret) {
-			s.Fail("toggle", kind, "%s [%d,%d]: change (%d->%d, ord %d), value %d expected; changes: %s", wr.desc, wr.inv, wr.ret, wr.prev, wr.new, wr.ord, want, w.fmtChanges())
+			w.attrFail("toggle", kind, "%s [%d,%d]: change (%d->%d, ord %d), value %d expected; changes: %s", wr.desc, wr.inv, wr.ret, wr.prev, wr.new, wr.ord, want, w.fmtChanges())
 		}
 	}
 	for _, rd := range u.reads {
@@ -405,11 +405,11 @@ func (u *uworld) finalChecks(final int) {
 			continue
 		}
 		if !w.possiblyCurrent(rd.val, rd.inv, rd.at) {
-			s.Fail("read", "value-not-held-during-call", "Read [%d,%d] saw %d at step %d; changes: %s", rd.inv, rd.ret, rd.val, rd.at, w.fmtChanges())
+			w.attrFail("read", "value-not-held-during-call", "Read [%d,%d] saw %d at step %d; changes: %s", rd.inv, rd.ret, rd.val, rd.at, w.fmtChanges())
 		}
 		for _, c := range w.changes {
 			if rd.exit != 0 && c.inv > rd.at && c.refEnter < rd.exit {
-				s.Fail("read", "value-changed-while-read-function-ran", "Read function ran [%d,%d] with value %d; change (%d->%d) by %s invoked %d was delivered at %d", rd.at, rd.exit, rd.val, c.prev, c.new, c.desc, c.inv, c.refEnter)
+				w.attrFail("read", "value-changed-while-read-function-ran", "Read function ran [%d,%d] with value %d; change (%d->%d) by %s invoked %d was delivered at %d", rd.at, rd.exit, rd.val, c.prev, c.new, c.desc, c.inv, c.refEnter)
 			}
 			u.r.hit("write-invoked-while-read-function-ran", rd.exit != 0 && c.inv > rd.at && c.inv < rd.exit)
 		}
@@ -453,9 +453,9 @@ func varutilsBody(s *simrt.Sim) {
 	w.subscribe(ref, func(cb func(prev, new int)) func() { return v.OnUpdate(cb) })
 	switch s.Choose(3) {
 	case 1:
-		w.write("main Set(5)", func() { v.Set(5) })
+		w.write("main Set(5)", func() { v.Set(5) }, 5)
 	case 2:
-		w.write("main Set(6)", func() { v.Set(6) })
+		w.write("main Set(6)", func() { v.Set(6) }, 6)
 	}
 	nwriters := 1 + s.Choose(2)
 	for i := 0; i < nwriters; i++ {
@@ -472,15 +472,15 @@ func varutilsBody(s *simrt.Sim) {
 				yields(o.pre)
 				switch o.kind {
 				case 0:
-					w.write(fmt.Sprintf("Set(%d)", o.val), func() { v.Set(o.val) })
+					w.write(fmt.Sprintf("Set(%d)", o.val), func() { v.Set(o.val) }, o.val)
 				case 1:
 					w.write(fmt.Sprintf("ToggleValue(%d)", o.val), func() {
 						u.wants[w.cur[simrt.Current()]] = o.val
 						resets = append(resets, v.ToggleValue(o.val))
-					})
+					}, o.val)
 				case 2:
 					if len(resets) == 0 {
-						w.write("Set(0)", func() { v.Set(0) })
+						w.write("Set(0)", func() { v.Set(0) }, 0)
 						break
 					}
 					reset := resets[len(resets)-1]
@@ -488,13 +488,13 @@ func varutilsBody(s *simrt.Sim) {
 					w.write("reset", func() {
 						u.wants[w.cur[simrt.Current()]] = 0
 						reset()
-					})
+					}, 0)
 				case 3:
-					w.write("Set(0)", func() { v.Set(0) })
+					w.write("Set(0)", func() { v.Set(0) }, 0)
 				case 4:
 					w.write(fmt.Sprintf("Compute(->%d)", o.val), func() {
 						v.Compute(func(int) int { simrt.Yield(); return o.val })
-					})
+					}, o.val)
 				case 5:
 					rd := &vread{inv: s.Tick()}
 					u.reads = append(u.reads, rd)
